@@ -2,7 +2,7 @@ import NomtModel.Api.Locks2Lin
 /-!
 # Replay of a RECORDED execution in the two-lock LTS (conformance of real schedules)
 
-The lock recorder (hook H18, `nomt/src/verif_hook.rs`) reports, from the real store running real threads, the
+The lock recorder (hook LR, `nomt/src/verif_hook.rs`) reports, from the real store running real threads, the
 start of every API call and every micro-step at its lock site; the harness (`harness/src/lockrec.rs`) renders
 the global log as lines
 
